@@ -178,7 +178,27 @@ fn process_dir(
     // As WalkDir seems not providing a function to check its stack,
     // using current_dir is a workaround to check leaving directory.
     let mut current_dir: Option<PathBuf> = None;
-    while let Some(result) = it.next() {
+    // In depth-first order the starting point has to come last. WalkDir
+    // yields it first when it is a symbolic link followed because of -H, so
+    // hold it back until everything below it has been processed.
+    let mut held_root = None;
+    loop {
+        let result = match it.next() {
+            Some(Ok(entry))
+                if config.depth_first
+                    && held_root.is_none()
+                    && entry.depth() == 0
+                    && entry.path_is_symlink() =>
+            {
+                held_root = Some(Ok(entry));
+                continue;
+            }
+            Some(result) => result,
+            None => match held_root.take() {
+                Some(result) => result,
+                None => break,
+            },
+        };
         match WalkEntry::from_walkdir(result, config.follow) {
             Err(err) => {
                 ret = 1;
